@@ -25,22 +25,22 @@ CELL_TYPES_OK = {
 }
 # (function, kind of foreign call, class of the lock held) — confirmed by reading, one reason each
 FOREIGN_UNDER_LOCK = {
-    ('<T as Subscription>::unsubscribe', 'unsubscribe', '_#self'): 'blanket Option-cell subscription unsubscribes the subscription it owns',
-    ('<ops::finalize::FinalizerObserver<O, C> as Observer>::complete', 'closure', '_#func'): 'finalizer runs under the guard of its own callback cell (C15.N5)',
-    ('<ops::finalize::FinalizerObserver<O, C> as Observer>::error', 'closure', '_#func'): 'same',
-    ('<ops::finalize::FinalizerSubscription<U, C> as Subscription>::unsubscribe', 'closure', '_#func'): 'same',
-    ("<ops::ref_count::ShareOp<'a, Item, Err, S> as Observable>::actual_subscribe", 'subscribe', 'MutRc<ops::ref_count::InnerShareOp>#0'): 'share(): first subscriber connects under the state cell so that the source is subscribed exactly once (C11.P-b)',
-    ('<ops::ref_count::ShareOpThreads<Item, Err, S> as Observable>::actual_subscribe', 'subscribe', 'MutArc<ops::ref_count::InnerShareOp>#0'): 'same (thread-safe instance)',
-    ('<ops::throttle::ThrottleObserver<O, SD, Item, F> as Observer>::complete', 'unsubscribe', '_#task_handler'): 'cancels the trailing task it owns (through the blanket cell subscription)',
-    ('<ops::throttle::ThrottleObserver<O, SD, Item, F> as Observer>::error', 'unsubscribe', '_#task_handler'): 'same',
-    ('<rc::MutArc<ops::combine_latest::CombineLatestObserver<O, A, B, BinaryOp>> as Observer>::next', 'closure', 'MutArc<ops::combine_latest::CombineLatestObserver>#self'): 'combine_latest applies the user combinator to the two latest values kept in the shared cell',
-    ('<rc::MutRc<ops::combine_latest::CombineLatestObserver<O, A, B, BinaryOp>> as Observer>::next', 'closure', 'MutRc<ops::combine_latest::CombineLatestObserver>#self'): 'same (local instance)',
-    ('<scheduler::Remote<Fut> as Future>::poll', 'poll', 'MutArc<scheduler::HandleInfo>#handle_info'): 'the task runs under its handle cell so that cancellation waits for it (C19.H3)',
-    ('<scheduler::TaskHandle<scheduler::SubscribeReturn<T>> as Subscription>::unsubscribe', 'unsubscribe', 'MutArc<scheduler::HandleInfo>#0'): 'unsubscribes the subscription the task produced',
+    ('<_ as Subscription>::unsubscribe', 'unsubscribe', '_#self'): 'blanket Option-cell subscription unsubscribes the subscription it owns',
+    ('<ops::finalize::FinalizerObserver as Observer>::complete', 'closure', '_#func'): 'finalizer runs under the guard of its own callback cell (C15.N5)',
+    ('<ops::finalize::FinalizerObserver as Observer>::error', 'closure', '_#func'): 'same',
+    ('<ops::finalize::FinalizerSubscription as Subscription>::unsubscribe', 'closure', '_#func'): 'same',
+    ('<ops::ref_count::ShareOp as Observable>::actual_subscribe', 'subscribe', 'MutRc<ops::ref_count::InnerShareOp>#0'): 'share(): first subscriber connects under the state cell so that the source is subscribed exactly once (C11.P-b)',
+    ('<ops::ref_count::ShareOpThreads as Observable>::actual_subscribe', 'subscribe', 'MutArc<ops::ref_count::InnerShareOp>#0'): 'same (thread-safe instance)',
+    ('<ops::throttle::ThrottleObserver as Observer>::complete', 'unsubscribe', '_#task_handler'): 'cancels the trailing task it owns (through the blanket cell subscription)',
+    ('<ops::throttle::ThrottleObserver as Observer>::error', 'unsubscribe', '_#task_handler'): 'same',
+    ('<MutArc<ops::combine_latest::CombineLatestObserver> as Observer>::next', 'closure', 'MutArc<ops::combine_latest::CombineLatestObserver>#self'): 'combine_latest applies the user combinator to the two latest values kept in the shared cell',
+    ('<MutRc<ops::combine_latest::CombineLatestObserver> as Observer>::next', 'closure', 'MutRc<ops::combine_latest::CombineLatestObserver>#self'): 'same (local instance)',
+    ('<scheduler::Remote as Future>::poll', 'poll', 'MutArc<scheduler::HandleInfo>#handle_info'): 'the task runs under its handle cell so that cancellation waits for it (C19.H3)',
+    ('<scheduler::TaskHandle as Subscription>::unsubscribe', 'unsubscribe', 'MutArc<scheduler::HandleInfo>#0'): 'unsubscribes the subscription the task produced',
 }
 CONTROLS = [
     'L3a|cycle CtlAbBa',
-    'L3b|<verif_controls::LockedFlatten<O, Item> as Observer>::next|subscribe',
+    'L3b|<verif_controls::LockedFlatten as Observer>::next|subscribe',
 ]
 
 
@@ -69,7 +69,7 @@ def lock_graph(cx):
         if not cls:
             continue
         n_fns += 1
-        label = cx.label(fn) if fn.get('impl') or fn.get('root') else fn['path']
+        label = roles.stable_label(cx, fn)
         for n in g.nodes:
             hs = held[n['id']]
             if not hs:
